@@ -491,6 +491,15 @@ func (s *scope) resolve(key instanceKey, descriptor *Descriptor) (any, error) {
 			return instance, nil
 		}
 
+		// The table is emptied when the provider is closed: a resolution that
+		// overlaps that Close reports what happened, not a missing singleton.
+		if atomic.LoadInt32(&s.disposed) != 0 {
+			return nil, ErrScopeDisposed
+		}
+		if atomic.LoadInt32(&s.rootProvider.disposed) != 0 {
+			return nil, ErrProviderDisposed
+		}
+
 		// Singleton should have been created at build time
 		return nil, &ResolutionError{
 			ServiceType: key.Type,
